@@ -34,6 +34,17 @@ def run(ctx):
     ctx.add_tlc(core.tlc_or_die(ctx.workdir, "NTModel", ntdrv.model_cfg(60 if quick else 150, INV), tag="ntm", timeout=3000))
     # (M) helpers computed from the factorisation (phi, Carmichael) agree with their definitions
     ctx.add_tlc(core.tlc_or_die(ctx.workdir, "NTModel", ntdrv.model_cfg(150 if quick else 400, ["HelperRefines"]), tag="nthelp", timeout=3000))
+    # (M) design layer: the transcribed algorithms (table + screening + Miller-Rabin with the first 40 primes as bases; next_prime's
+    # odd stepping; factorisation = table primes, then odd trial divisors from 1231) refine the definitions; with a vacuity probe
+    # (Miller-Rabin with base 2 alone must be refuted)
+    big = "1515361, 1522747, 1527751, 1545049, 57040847, 3030722, 4568241, 1522749" + ("" if quick else ", 100160063, 1073217479")
+    acfg = ("INIT Init\nNEXT Next\nCHECK_DEADLOCK FALSE\nCONSTANTS Blocks = %d\n Big = {%s}\n" % (40 if quick else 460, big))
+    ctx.add_tlc(core.tlc_or_die(ctx.workdir, "NTAlgModel", acfg + "INVARIANT MillerRabinRefines\nINVARIANT NextPrimeAlgRefines\n"
+                                "INVARIANT FactorAlgRefines\nINVARIANT MulModRefines\n", tag="ntalgm", timeout=3000))
+    rb = core.tlc(ctx.workdir, "NTAlgModel", acfg.replace("Blocks = %d" % (40 if quick else 460), "Blocks = 25") + "INVARIANT Base2Suffices\n",
+                  tag="ntalgvac", timeout=900)
+    if "Base2Suffices" not in rb.invariant_violated:
+        raise core.MachineryFailure("vacuity probe: Miller-Rabin with base 2 alone was not refuted")
     events = []
     # is_prime: exhaustive blocks (incl. n < 2 and the small-prime table boundary at 1229)
     top = 2 ** 15 if quick else 2 ** 20
